@@ -2,10 +2,11 @@
 import nauyaca.protocol.request  # noqa: F401
 
 from props.c08 import is_qchar
-from vf import Ob, V, admit
+from vf import Ob, V, admit, pick
 from vf.clientrun import Env
 from vf.symbuf import Fill, mk
 
+NSEQ = pick(2, 3)
 K1 = ("a.example", 1965)
 K2 = ("b.example", 7000)
 SIZES = [1, 70000, 10 * 1024 * 1024]
@@ -60,6 +61,38 @@ def order(sit: int, entry: int, q: int, tk: int, si: int) -> bool:
     return V(t.total_rx() > 0)
 
 
+def _op(c, entry):
+    if entry == 0:
+        return c.get("gemini://a.example/secret-path?tok=1", follow_redirects=False)
+    if entry == 1:
+        return c.get("gemini://a.example/other", follow_redirects=True)
+    if entry == 2:
+        return c.upload("gemini://a.example/up", b"CONTENT", token="T0")
+    return c.delete("gemini://a.example/up", token="T0")
+
+
+def sequence(sit: int, e1: int, e2: int, e3: int, n: int) -> bool:
+    """
+    pre: 0 <= sit <= 6 and 0 <= e1 <= 3 and 0 <= e2 <= 3 and 0 <= e3 <= 3 and 2 <= n <= NSEQ
+    post: _
+    """
+    # several operations by ONE client object against the same peer: whatever the client remembers
+    # between calls, no request byte may leave before that connection's certificate has passed verification
+    env = Env(True)
+    _setup(env, K1, sit)
+    c = env.client
+    for i, e in enumerate([e1, e2, e3][:n]):
+        res, exc = env.run(_op(c, e))
+        if len(env.conns) != i + 1:
+            return V(False)
+        t = env.conns[i]
+        if t.rx_before_verify != 0:
+            return V(False)
+        if _must_fail(sit) and (res is not None or exc is None or t.total_rx() != 0):
+            return V(False)
+    return V(True)
+
+
 def redirect_second_hop(sit2: int, q: int) -> bool:
     """
     pre: 0 <= sit2 <= 6 and is_qchar(q)
@@ -100,6 +133,9 @@ OBLIGATIONS = [
     Ob("order", order, quick=400, thorough=1200,
        symbolic="pin situation (unpinned / same / changed / unreadable / changed+expired / unpinned+expired / pinned not-yet-valid), entry point (get, get with query, upload with token, delete), "
                 "query character, token character (any query-safe ASCII code point), upload size class (1 B, 70 kB, 10 MiB)",
+       functions=FN, stubs=["scripted peer transport", "ModelSQL", "MiniLoop"]),
+    Ob("sequence", sequence, quick=400, thorough=1200,
+       symbolic="2 (quick) / 3 (thorough) consecutive operations (get, get+redirects, upload, delete) by one client object, pin situation (7)",
        functions=FN, stubs=["scripted peer transport", "ModelSQL", "MiniLoop"]),
     Ob("redirect_second_hop", redirect_second_hop, quick=300, thorough=900,
        symbolic="pin situation of the redirect target, query character of the redirect target",
